@@ -297,3 +297,23 @@ def universe(depth):
     if depth >= 3:
         specs += level3()
     return _dedupe(specs)
+
+
+def render(x):
+    """Canonical typed rendering of a real Python value (order-free for dict/set/frozenset)."""
+    t = type(x)
+    if x is None:
+        return "None"
+    if t is bool or t is int or t is float or t is complex:
+        return "%s:%r" % (t.__name__, x)
+    if t is str or t is bytes:
+        return "%s:%r" % (t.__name__, x)
+    if t is bytearray:
+        return "bytearray:%r" % bytes(x)
+    if t is tuple or t is list:
+        return "%s(%s)" % (t.__name__, ",".join(render(e) for e in x))
+    if t is set or t is frozenset:
+        return "%s{%s}" % (t.__name__, ",".join(sorted(render(e) for e in x)))
+    if t is dict:
+        return "dict{%s}" % ",".join(sorted("%s=>%s" % (render(k), render(v)) for k, v in x.items()))
+    return "%s.%s:%r" % (t.__module__, t.__name__, getattr(x, "__dict__", None))
